@@ -46,7 +46,7 @@ SKIP_MODULES = {"markdown_it.cli.parse", "markdown_it.cli", "markdown_it.port"}
 FRESH_CALLS = {"list", "dict", "set", "tuple", "str", "int", "bool", "sorted", "reversed", "Token", "Delimiter", "Scanned",
                "_Result", "_State", "copy", "deepcopy", "StateBlock", "StateInline", "StateCore", "SyntaxTreeNode", "OptionsDict",
                "Ruler", "Rule", "ParserBlock", "ParserInline", "ParserCore", "len", "min", "max", "range", "enumerate", "zip",
-               "repr", "chr", "ord", "getattr", "isinstance", "type", "cast", "splitlines", "split", "join", "replace", "strip",
+               "repr", "chr", "ord", "getattr", "isinstance", "type", "splitlines", "split", "join", "replace", "strip",
                "lower", "upper", "format", "dataclass_replace", "dc_replace", "items", "keys", "values", "get_active_rules",
                "get_all_rules", "as_dict", "from_dict", "convert_attrs", "attrItems", "LinkifyIt", "getLines", "slice",
                "make", "dict_factory", "cls"}
@@ -206,6 +206,8 @@ class FuncFrame(ast.NodeVisitor):
                 name = f.value.id if isinstance(f.value, ast.Name) else None
             if isinstance(f, ast.Call) and isinstance(f.func, ast.Name) and f.func.id == "type":
                 return "FRESH"  # type(self)(...) constructs a new object
+            if name == "cast" and len(e.args) == 2:
+                return self.region(e.args[1])  # typing.cast returns its argument itself
             if name in FRESH_CALLS:
                 return "FRESH"
             if isinstance(f, ast.Attribute):
@@ -318,7 +320,44 @@ class FuncFrame(ast.NodeVisitor):
 
     def visit_AugAssign(self, node):
         self._store_target(node.target, node, None)
+        if isinstance(node.target, ast.Name) and self._maybe_container(node.target.id, node.value):
+            # `x += y` extends a list IN PLACE: when the local denotes an object that outlives the call (e.g. a chain
+            # returned by getRules, which is the ruler's cached list itself) this is a write to that object
+            self.add(node, "mutate:inplace-op", node.target, None)
         self.generic_visit(node)
+
+    _CONTAINER_CALLS = {"getRules", "get_active_rules", "get_all_rules", "copy", "split", "splitlines", "list", "dict", "set", "sorted", "escapedSplit"}
+    _CONTAINER_FIELDS = {"tokens", "children", "delimiters", "attrs", "meta", "alt", "__rules__", "bMarks", "eMarks", "tShift", "sCount", "bsCount", "rules", "_prev_delimiters",
+                         "backticks", "cache", "env", "__cache__"}
+
+    def _container_expr(self, v):
+        if isinstance(v, (ast.List, ast.Dict, ast.Set, ast.ListComp, ast.DictComp, ast.SetComp)):
+            return True
+        if isinstance(v, ast.Call):
+            f = v.func
+            nm = f.attr if isinstance(f, ast.Attribute) else (f.id if isinstance(f, ast.Name) else None)
+            return nm in self._CONTAINER_CALLS
+        if isinstance(v, ast.Attribute):
+            return v.attr in self._CONTAINER_FIELDS
+        if isinstance(v, ast.Subscript):
+            return isinstance(v.slice, ast.Slice) and self._container_expr(v.value)
+        if isinstance(v, ast.BinOp):
+            return self._container_expr(v.left) or self._container_expr(v.right)
+        return False
+
+    def _maybe_container(self, name, aug_value):
+        """may the local `name` denote a list / dict / set (so that an augmented assignment mutates it in place)?"""
+        if self._container_expr(aug_value):
+            return True
+        fn = getattr(self, "fn", None)
+        if fn is None:
+            return True
+        for n in ast.walk(fn):
+            if isinstance(n, ast.Assign) and any(isinstance(t, ast.Name) and t.id == name for t in n.targets) and self._container_expr(n.value):
+                return True
+            if isinstance(n, ast.AnnAssign) and isinstance(n.target, ast.Name) and n.target.id == name and n.value is not None and self._container_expr(n.value):
+                return True
+        return False
 
     def visit_Delete(self, node):
         for t in node.targets:
@@ -455,9 +494,72 @@ def frame_obligations(prop_filter=None):
             else:
                 verdict = "failed"
         obs.append({"oid": oid, "verdict": verdict, "info": info, "func": s.func, "line": s.line, "kind": "FRAME", "site": s})
+    # ownership (DESIGN 2.3): a field of instance state that is ever written *through* (self._options[k] = v,
+    # self.rules[name] = f, self.__rules__.insert(...)) may only be assigned an object created for this instance - otherwise a
+    # preset dictionary or a caller's mapping becomes the live state of one or several instances
+    through = {s.field for s in sites if s.region == "MD" and s.kind != "store-attr" and s.field}
+    oc: dict = {}
+    for s in sites:
+        if s.kind == "store-attr" and s.region == "MD" and s.field in through and s.field != "__cache__":
+            k = oc.get((s.func, s.field), 0)
+            oc[(s.func, s.field)] = k + 1
+            ok = s.value_region in ("FRESH", "IMMUTABLE")
+            obs.append({"oid": f"{s.func}/FRAME/ownership:{s.field}#{k}", "verdict": "discharged" if ok else "failed", "func": s.func, "line": s.line, "kind": "FRAME", "site": s,
+                        "info": f"line {s.line}: `{s.target}.{s.field}` (written through elsewhere) is assigned " + ("an object created here" if ok else f"an object of region {s.value_region} - not a private copy")})
     for func, p in problems:
         obs.append({"oid": f"{func}/FRAME/discipline:{p[:50]}", "verdict": "failed", "info": p, "func": func, "line": 0, "kind": "FRAME", "site": None})
     return obs, functions, sites
+
+
+ENV_WRITERS = {"markdown_it.rules_block.reference.reference"}
+
+
+def env_writer_obligations():
+    """FRAME/env-writer: the caller's env is written by the reference rule only (a definition being recorded). So a block
+    parse of a text without definitions leaves env exactly as an inline-only parse does (C18), and what env holds after a
+    parse is the definitions and nothing else (C16)."""
+    sites, _, _ = analyse_package()
+    obs, cnt = [], {}
+    for s in sites:
+        if s.region != "ENV":
+            continue
+        k = cnt.get(s.func, 0)
+        cnt[s.func] = k + 1
+        ok = s.func in ENV_WRITERS
+        obs.append({"oid": f"{s.func}/FRAME/env-writer#{k}", "verdict": "discharged" if ok else "failed", "func": s.func, "line": s.line, "kind": "FRAME",
+                    "info": f"line {s.line}: `{s.target}` ({s.kind}) - " + ("the reference rule records a definition" if ok else "env is written outside the reference rule")})
+    if not obs:
+        obs.append({"oid": "markdown_it.rules_block.reference.reference/FRAME/env-writer", "verdict": "undecided", "func": "markdown_it.rules_block.reference.reference", "line": 0, "kind": "FRAME",
+                    "info": "no write to env found at all (the analysis no longer recognises the reference rule's stores)"})
+    return obs
+
+
+def add_env_writer_obligations(rep, prop):
+    from .report import Ob
+
+    for o in env_writer_obligations():
+        rep.obs.append(Ob(oid=f"{prop}/{o['oid']}", kind="FRAME", func=o["func"], backend="frame", verdict=o["verdict"], info=o["info"], line=o["line"], solver="region-typing"))
+        if o["verdict"] == "failed":
+            w = None
+            try:
+                from markdown_it import MarkdownIt
+
+                for preset in ("commonmark", "js-default"):
+                    md = MarkdownIt(preset)
+                    for doc in ("[`a`][`", "[a][b]", "a", "[x]"):
+                        e1, e2 = {}, {}
+                        t1 = md.parse(doc, e1)
+                        t2 = md.parseInline(doc, e2)
+                        c1 = [c.as_dict() for t in t1 if t.type == "inline" for c in (t.children or [])]
+                        c2 = [c.as_dict() for c in (t2[0].children or [])]
+                        if e1 != e2 or c1 != c2:
+                            w = {"preset": preset, "doc": doc, "env_after_parse": repr(e1), "env_after_parseInline": repr(e2), "children_equal": c1 == c2}
+                            break
+                    if w:
+                        break
+            except Exception:  # noqa: BLE001
+                pass
+            rep.replays[f"{prop}/{o['oid']}"] = {"lifted": {"arguments": w} if w else {}, "observed": {"outcome": "parse and parseInline leave different env / children" if w else "no distinguishing document among the candidates"}, "replayed": bool(w)}
 
 
 # ------------------------------------------------------------------------------------------------ strong invariant (C13)
